@@ -4,6 +4,7 @@ package document
 import (
 	"encoding/xml"
 	"fmt"
+	"path"
 	"strconv"
 	"strings"
 )
@@ -176,6 +177,69 @@ func createPageNumberRuns() []Run {
 	}
 }
 
+// headerFooterFileName 新的页眉/页脚部件使用的文件名。通常是该类型的固定名称；但打开的文档可以任意命名其部件
+// （例如首页页眉就叫 header1.xml，或者两种类型的引用共用同一个部件），如果固定名称的部件已经存在并且正被
+// 另一种类型的引用使用，写入它就会连带改掉另一种类型的页眉/页脚，这时改用一个尚未占用的名称
+func (d *Document) headerFooterFileName(typePrefix string, hfType HeaderFooterType) string {
+	fileName := getFileNameForType(typePrefix, hfType)
+	if _, exists := d.parts["word/"+fileName]; !exists || !d.partUsedByOtherKind(typePrefix, hfType, "word/"+fileName) {
+		return fileName
+	}
+	for n := 2; ; n++ {
+		candidate := fmt.Sprintf("%s%d.xml", typePrefix, n)
+		if _, taken := d.parts["word/"+candidate]; !taken {
+			return candidate
+		}
+	}
+}
+
+// partUsedByOtherKind 判断部件是否被另一种类型（default/first/even）的页眉或页脚引用使用
+func (d *Document) partUsedByOtherKind(typePrefix string, hfType HeaderFooterType, partName string) bool {
+	if d.Body == nil || d.documentRelationships == nil {
+		return false
+	}
+	usedBy := func(refType, refID string) bool {
+		if refType == string(hfType) {
+			return false
+		}
+		for _, rel := range d.documentRelationships.Relationships {
+			if rel.ID != refID {
+				continue
+			}
+			target := rel.Target
+			if strings.HasPrefix(target, "/") {
+				target = strings.TrimPrefix(path.Clean(target), "/")
+			} else {
+				target = path.Clean(path.Join("word", target))
+			}
+			if target == partName {
+				return true
+			}
+		}
+		return false
+	}
+	for _, element := range d.Body.Elements {
+		sectPr, ok := element.(*SectionProperties)
+		if !ok || sectPr == nil {
+			continue
+		}
+		if typePrefix == "header" {
+			for _, ref := range sectPr.HeaderReferences {
+				if ref != nil && usedBy(ref.Type, ref.ID) {
+					return true
+				}
+			}
+		} else {
+			for _, ref := range sectPr.FooterReferences {
+				if ref != nil && usedBy(ref.Type, ref.ID) {
+					return true
+				}
+			}
+		}
+	}
+	return false
+}
+
 // getFileNameForType 获取页眉页脚文件名
 func getFileNameForType(typePrefix string, headerType HeaderFooterType) string {
 	switch headerType {
@@ -220,7 +284,7 @@ func (d *Document) AddHeader(headerType HeaderFooterType, text string) error {
 	fullXML := append([]byte(xml.Header), headerXML...)
 
 	// 获取文件名
-	fileName := getFileNameForType("header", headerType)
+	fileName := d.headerFooterFileName("header", headerType)
 	headerPartName := fmt.Sprintf("word/%s", fileName)
 
 	// 存储页眉内容
@@ -273,7 +337,7 @@ func (d *Document) AddFooter(footerType HeaderFooterType, text string) error {
 	fullXML := append([]byte(xml.Header), footerXML...)
 
 	// 获取文件名
-	fileName := getFileNameForType("footer", footerType)
+	fileName := d.headerFooterFileName("footer", footerType)
 	footerPartName := fmt.Sprintf("word/%s", fileName)
 
 	// 存储页脚内容
@@ -352,7 +416,7 @@ func (d *Document) AddHeaderWithPageNumber(headerType HeaderFooterType, text str
 	fullXML := append([]byte(xml.Header), headerXML...)
 
 	// 获取文件名
-	fileName := getFileNameForType("header", headerType)
+	fileName := d.headerFooterFileName("header", headerType)
 	headerPartName := fmt.Sprintf("word/%s", fileName)
 
 	// 存储页眉内容
@@ -431,7 +495,7 @@ func (d *Document) AddFooterWithPageNumber(footerType HeaderFooterType, text str
 	fullXML := append([]byte(xml.Header), footerXML...)
 
 	// 获取文件名
-	fileName := getFileNameForType("footer", footerType)
+	fileName := d.headerFooterFileName("footer", footerType)
 	footerPartName := fmt.Sprintf("word/%s", fileName)
 
 	// 存储页脚内容
@@ -590,7 +654,7 @@ func (d *Document) AddFormattedHeader(headerType HeaderFooterType, config *Heade
 	fullXML := append([]byte(xml.Header), headerXML...)
 
 	// 获取文件名
-	fileName := getFileNameForType("header", headerType)
+	fileName := d.headerFooterFileName("header", headerType)
 	headerPartName := fmt.Sprintf("word/%s", fileName)
 
 	// 存储页眉内容
@@ -655,7 +719,7 @@ func (d *Document) AddFormattedFooter(footerType HeaderFooterType, config *Heade
 	fullXML := append([]byte(xml.Header), footerXML...)
 
 	// 获取文件名
-	fileName := getFileNameForType("footer", footerType)
+	fileName := d.headerFooterFileName("footer", footerType)
 	footerPartName := fmt.Sprintf("word/%s", fileName)
 
 	// 存储页脚内容
